@@ -55,6 +55,34 @@ CLAIMS = {
             'model view (lemma_fresh_model), LzmaDecoder::reset / Lzma2Decoder::reset re-establish the precondition of decompress, and '
             'decompress is a function of the view only.',
             'Verus function contracts (field-by-field fresh predicate)', '5 C14'),
+    'C03': (True,
+            'Unbounded deductive proof (Verus): xz_decompress / decode_stream REFINE the container spec sp_xz transcribed from '
+            'xz-file-format-1.1.0 (stream header, any number of blocks incl. zero, block header with optional sizes / filter list / '
+            'zero padding / CRC32, LZMA2 payload via the verified LZMA2 decoder, block padding, check None/CRC32/CRC64, index, footer): '
+            'spec Good(out) + reliable source + infallible sink => Ok and output == concatenation of block contents; the Take / '
+            'CrcDigestRead / BufReader / CountBufRead adapter nest is verified (stand-ins for the two std adapters). Blocks with more '
+            'than one filter are outside the specified subset (spec Unspec, nothing claimed). CRCs are uninterpreted functions.',
+            'Verus refinement proofs on mechanically extracted real code', '5 C03'),
+    'C06': (True,
+            'Unbounded deductive proof (Verus), Ok-implies direction: xz_decompress returns Ok only if sp_xz is Good, i.e. header magic / '
+            'flags / CRC32, every block header CRC32, declared packed/unpacked sizes, zero paddings, block check == crc32_of/crc64_of '
+            '(decoded data), index count / records / padding / CRC32, footer CRC32, backward size compared in mathematical integers, '
+            'equal stream flags, footer magic and end of file all hold (spec Bad => Err). Collision resistance of CRC is not claimed.',
+            'Verus refinement proofs (iff-contracts on every parser)', '5 C06'),
+    'C13': (True,
+            'Unbounded deductive proof by construction: BufRead::fill_buf is specified to return an ARBITRARY non-empty prefix of the '
+            'remaining data and Read::read an arbitrary short count, every function is verified against that under-specified contract, '
+            'and every postcondition is a function of remaining() only. The direct users of fill_buf/consume have functional contracts: '
+            'is_eof, flush_zero_padding (Ok(true) iff all remaining bytes are zero, then all consumed), CountBufRead, CrcDigestRead, '
+            'Take/BufReader stand-ins, RangeDecoder::{is_eof,is_finished_ok}; the top-level decoders (LZMA, LZMA2, XZ) have contracts '
+            'that determine verdict, output and consumption from remaining() alone.',
+            'Verus contracts with deliberately under-specified reader model', '5 C13'),
+    'C18': (True,
+            'Unbounded deductive proof (Verus): CheckMethod::try_from Ok iff id in {0,1,4,10}; StreamFlags::parse Ok iff first byte 0 and '
+            'known check id (reserved bits refused); validate_block_check refuses SHA-256; get_filter_id Ok iff 0x21; reserved block '
+            'flag bits => Err; sp_xz requires end of file after the footer (second stream / stream padding => Bad => Err); a block '
+            'reaches the sink only after all its checks passed (spec Bad => Err and sink unchanged by that block).',
+            'Verus iff-contracts on the classifiers + refinement of the container spec', '5 C18'),
     'C17': (True,
             'Unbounded deductive proof (Verus): sp_lzma2 returns None for control bytes 0x03-0x7F, props >= 225 or lc+lp > 4, payload '
             'needing more than the declared packed size, produced size != declared size, short uncompressed chunk, missing end byte; '
